@@ -179,8 +179,7 @@ def build_aerostruct(surfs, flow=None, npoints=1, compressible=False, rotational
     per_point = ["v", "alpha", "beta", "Mach_number", "re", "rho", "CT", "R", "W0", "speed_of_sound", "load_factor", "empty_cg"]
     if ground:
         per_point.append("height_agl")
-    if rotational:
-        per_point += ["omega"]
+    rot_vals = {k: fl.pop(k) for k in ("omega", "cg") if rotational and k in fl}
     if user_sref is not None:
         per_point.append("S_ref_total")
     vals = {}
@@ -216,15 +215,11 @@ def build_aerostruct(surfs, flow=None, npoints=1, compressible=False, rotational
         for k in per_point:
             src = k if point_flows is None else "%s_%d" % (k, i)
             if k == "omega":
-                c(src, pn + ".coupled.aero_states.omega")
-                continue
+                continue  # set after setup (see below)
             c(src, pn + "." + k)
         if any(s_["struct_weight_relief"] or s_.get("distributed_fuel_weight") or "n_point_masses" in s_ for s_ in surfs):
             # as in the documentation's run scripts: the load factor also drives the inertial loads inside the coupled group
             c("load_factor" if point_flows is None else "load_factor_%d" % i, pn + ".coupled.load_factor")
-        if rotational:
-            # the moment reference / rotation centre: AerostructPoint computes cg itself; connect to aero_states
-            c(pn + ".cg", pn + ".coupled.aero_states.cg")
         for s in surfs:
             n = s["name"]
             com = pn + "." + n + "_perf."
@@ -270,6 +265,14 @@ def build_aerostruct(surfs, flow=None, npoints=1, compressible=False, rotational
         return p
     p.setup(mode=mode)
     p.set_solver_print(-1)
+    fl.update(rot_vals)
+    if rotational:
+        # rotation rate and user-given rotation centre of every point: plain (unconnected) inputs of the states group, addressed
+        # by the absolute name of the component input so that the harness does not depend on promotion levels
+        for i in range(npoints):
+            base = "AS_point_%d.coupled.aero_states.rotational_velocity." % i
+            p.set_val(base + "omega", np.array(fl["omega"], dtype=float))
+            p.set_val(base + "cg", np.array(fl["cg"], dtype=float))
     return p
 
 
